@@ -226,3 +226,19 @@ impl CertificateSigningRequestParams {
 		})
 	}
 }
+
+/// Verification hooks (compiled only under `--cfg rustls_rcgen_verif`): constructors
+/// that expose private fields of this module to an external harness crate.
+#[cfg(rustls_rcgen_verif)]
+#[doc(hidden)]
+#[allow(missing_docs, unreachable_pub)]
+pub mod verif_hooks_csr {
+	use super::*;
+
+	pub fn public_key_from_parts(raw: Vec<u8>, alg: &'static SignatureAlgorithm) -> PublicKey {
+		PublicKey { raw, alg }
+	}
+	pub fn public_key_parts(key: &PublicKey) -> (&[u8], &'static SignatureAlgorithm) {
+		(&key.raw, key.alg)
+	}
+}
